@@ -89,7 +89,7 @@ def dirty(b, obj, prefix=''):
 
 
 # ---- Context.clear == Context()
-c = contract('bardolph/parser/context.py', 'Context.clear', serves=['C17', 'C06', 'C05'])
+c = contract('bardolph/parser/context.py', 'Context.clear', serves=['C17', 'C06', 'C05', 'C10', 'C01'])
 def _setup(b, case):
     ctx = b.new(('bardolph.parser.context', 'Context'))
     fresh = b.new(('bardolph.parser.context', 'Context'))
